@@ -35,6 +35,7 @@ type replayCtx struct {
 	terms []string
 	seen  map[string]bool
 	small []string // small-model constraints
+	facts []string // type facts of the queried terms (always asserted)
 	depth int
 }
 
@@ -58,6 +59,7 @@ func (rc *replayCtx) walk(T types.Type, comps []string, depth int) *rnode {
 	for _, c := range comps {
 		rc.want(c)
 	}
+	rc.facts = append(rc.facts, rangeFact(T, comps))
 	switch u := under(T).(type) {
 	case *types.Basic:
 		switch {
@@ -545,6 +547,11 @@ func tryReplay(eng *Engine, prop string, r *Result, dir, name string) (gofile, l
 	var lastOut string
 	for attempt := 0; attempt < 3; attempt++ {
 		var extra strings.Builder
+		for _, c := range rc.facts {
+			if c != "true" {
+				extra.WriteString("(assert " + c + ")\n")
+			}
+		}
 		if attempt < 2 {
 			for _, c := range rc.small {
 				extra.WriteString("(assert " + c + ")\n")
@@ -672,14 +679,8 @@ func tryReplay(eng *Engine, prop string, r *Result, dir, name string) (gofile, l
 	// clause
 	clauseGo := ""
 	pr := &goPrinter{ok: true}
-	if r.Ob.Kind == "post" {
-		for _, cl := range t.ct.Ensures {
-			lbl := cl.Label
-			if strings.HasSuffix(r.Ob.Name, "/"+lbl) && lbl != "" || (lbl == "" && strings.Contains(r.Ob.Desc, cl.Text)) {
-				clauseGo = pr.print(cl.Expr, false)
-				break
-			}
-		}
+	if r.Ob.Kind == "post" && r.Ob.Part != nil {
+		clauseGo = pr.print(r.Ob.Part, false)
 	}
 	var src strings.Builder
 	fmt.Fprintf(&src, "//go:build verif\n\npackage %s\n\nimport (\n", fn.Pkg.Pkg.Name())
